@@ -57,6 +57,10 @@ func (k Keeper) MintAndAllocate(ctx sdk.Context) error {
 
 		ctx.Logger().Error(errStr)
 
+		// nothing is minted for this block, but its interval is accounted for:
+		// the next block must not mint for it again
+		k.SetPrevBlockTS(ctx, currentBlockTS.RoundInt())
+
 		return nil
 	}
 
